@@ -501,6 +501,22 @@ def run(h: Harness):
                                f"{sname}.apply on a fresh {name} population (never evaluated, never mapped): the genotype of parent #{j} changed from "
                                f"{str(before[j])[:100]} to {str(after[j])[:100]}", [line, name, seedv, sname])
                         break
+                    # ... and what becomes known about the OFFSPRING later (they are evaluated, also for a problem nobody has seen before)
+                    # is knowledge about the offspring: the parents are as unevaluated as they were
+                    if st == "ok":
+                        had = [(i.has_fitness(problem), len(i.fitness_store)) for i in fresh]
+                        probe = SingleObjectiveProblem(lambda p: float(len(repr(p)) % 29), minimize=False)
+                        kids = [o for o in out if not any(o is i for i in fresh)]
+                        safe(lambda: SequentialEvaluator().evaluate(probe, kids))
+                        safe(lambda: SequentialEvaluator().evaluate(problem, kids))
+                        now = [(i.has_fitness(problem), len(i.fitness_store)) for i in fresh]
+                        if now != had:
+                            j = next(k for k in range(len(fresh)) if now[k] != had[k])
+                            h.fail(f"{name}:step[{sname}]", "input-modified",
+                                   f"{sname}.apply on a fresh {name} population: after the OFFSPRING were evaluated (for the search's problem and for a second one), "
+                                   f"parent #{j}, which nobody evaluated, holds {now[j][1]} cached fitness value(s) instead of {had[j][1]}",
+                                   [line, name, seedv, sname, "offspring-evaluated"])
+                            break
             # hand-written programs (built by calling the classes, not by the library: no synthesis context, no labels) as parents of the tree
             # operators: they come out of mutation / crossover as they went in
             if name == "tree":
@@ -516,6 +532,16 @@ def run(h: Harness):
                         j = next(k for k in range(len(hand)) if now[k] != snaps[k])
                         h.fail("tree:mutate", "input-modified", f"tree.mutate / crossover of a hand-written program (no synthesis metadata) changed it: "
                                f"{sx(snaps[j])[:120]} -> {sx(now[j])[:120]}", [line, name, seedv, "hand-written"])
+                    # ... and as members of a population that steps evaluate and select from (the tree representation's programs ARE its genotypes)
+                    hinds = [Individual(x, rep) for x in hand]
+                    for mk in (lambda: ElitismStep(), lambda: TournamentSelection(2), lambda: ParallelStep([ElitismStep(), NoveltyStep()], [1, 1])):
+                        safe(lambda: list(mk().apply(problem, SequentialEvaluator(), rep, r, list(hinds), max(1, len(hinds) - 1), 1)))
+                    h.count("hand-written-population")
+                    now = [node_snapshot(x, b, {}) for x in hand]
+                    if now != snaps:
+                        j = next(k for k in range(len(hand)) if now[k] != snaps[k])
+                        h.fail("tree:step[elitism]", "input-modified", f"selection steps over a population of hand-written programs (no synthesis metadata) "
+                               f"wrote into them: {str(snaps[j])[:120]} -> {str(now[j])[:120]}", [line, name, seedv, "hand-written-population"])
             # (b) steps on an evaluated population
             safe(lambda: ev.evaluate(problem, pool))
             pool = [p for p in pool if p.has_fitness(problem)]
